@@ -407,6 +407,12 @@ func (e *Exec) lookupCallee(common *ssa.CallCommon, fnv Val) calleeInfo {
 	if fv, ok := common.Value.(*ssa.FreeVar); ok {
 		keys = append(keys, shortID(e.fn.String())+"."+fv.Name())
 	}
+	if u, ok := common.Value.(*ssa.UnOp); ok && u.Op == token.MUL {
+		if fv, ok := u.X.(*ssa.FreeVar); ok {
+			// a captured function variable (captured by reference): the cell is loaded, then called
+			keys = append(keys, shortID(e.fn.String())+"."+fv.Name())
+		}
+	}
 	keys = append(keys, "type:"+typeString(common.Value.Type()))
 	for _, k := range keys {
 		if con, ok := CS.ByID["callback "+k]; ok {
@@ -715,7 +721,7 @@ func (e *Exec) isZapPrivateComp(n string) bool {
 		// pooled scratch wrappers of error arrays: no contract relies on their contents across calls
 		return false
 	}
-	if strings.HasPrefix(n, "T:") || n == "$clk" || strings.HasPrefix(n, "G:") || n == "$held" || n == "$closed" || n == "$once" || n == "$panic" {
+	if strings.HasPrefix(n, "T:") || n == "$clk" || strings.HasPrefix(n, "G:") || n == "$held" || n == "$closed" || n == "$once" || n == "$panic" || n == "$unpub" {
 		return true
 	}
 	if strings.HasPrefix(n, "E:") {
@@ -1163,7 +1169,7 @@ func (e *Exec) checkFrameAgainst(con *Contract, sc *Scope, label string, st *Sta
 	}
 	sort.Strings(names)
 	for _, n := range names {
-		if n == "$alloc" || n == "$clk" || n == "$panic" || strings.HasPrefix(n, "T:") || allowedWhole[n] {
+		if n == "$alloc" || n == "$clk" || n == "$panic" || n == "$unpub" || strings.HasPrefix(n, "T:") || allowedWhole[n] {
 			continue
 		}
 		if allowedWhole["$user"] && !e.isZapPrivateComp(n) {
